@@ -7,6 +7,7 @@ pub mod c09;
 pub mod client;
 pub mod evlog;
 pub mod live;
+pub mod live_router;
 pub mod gen;
 pub mod model;
 pub mod panics;
